@@ -223,9 +223,12 @@ def gen(cls, idx, rng, tier):
     name = sorted(BMP_METHODS)[(idx // len(PLANS)) % len(BMP_METHODS)]
     conns = rng.choice([[(0, 0)], [(0, 0), (0, 0, 3)], [(0, 0), (1, 0)],
                         [(0, 0, 1), (0, 0, 2), (0, 0)], [(2, 1), (2, 1, 7)]])
+    board = rng.randrange(0, 8)
+    if name in ("set_led", "set_power") and rng.random() < .4:
+        board = sorted(rng.sample(range(8), rng.randint(2, 4)))
+        rng.shuffle(board)
     return dict(kind="bmp", method=name, plan=PLANS[idx % len(PLANS)],
-                conns=conns, seed=rng.randrange(1 << 30),
-                board=rng.randrange(0, 8))
+                conns=conns, seed=rng.randrange(1 << 30), board=board)
 
 
 # --------------------------------------------------------------- helpers
@@ -701,8 +704,10 @@ def run_bmp(case, ctx):
     base = build(rng)
     cab, frm = [c for c in case["conns"]][0][:2]
     board = case["board"]
+    boards = list(board) if isinstance(board, list) else [board]
     R = dict(cabinet=cab, frame=frm, board=board)
-    decoy = dict(cabinet=cab, frame=frm, board=(board + 1) % 8)
+    decoy = dict(cabinet=cab, frame=frm, board=(boards[0] + 1) % 8)
+    board1 = boards[0]
     cargs = ["cabinet", "frame", "board"]
     plan_ = case["plan"]
     stack0 = bc.get_context_arguments()
@@ -759,20 +764,21 @@ def run_bmp(case, ctx):
         ctx.mark_nontrivial()
         return
     check(exc is None and seen, "call-rejected", repr(exc), **where)
-    cboard = 0 if family == "power" else board
+    cboard = 0 if family == "power" else board1
     want_host = hosts.get((cab, frm, cboard), hosts.get((cab, frm)))
     main = seen[-1]
     for host, q in seen:
         check(host == want_host, "wrong-connection",
               "sent through %s, expected %s" % (host, want_host), **where)
     q = main[1]
-    exp_board = 0 if family == "power" else board
+    exp_board = 0 if family == "power" else board1
     check((q["dest_x"], q["dest_y"], q["dest_cpu"]) == (0, 0, exp_board),
           "wrong-destination", "%r, board %d" %
           ((q["dest_x"], q["dest_y"], q["dest_cpu"]), exp_board), **where)
     a = struct.unpack_from("<3I", q["body"] + b"\0" * 12)
     if family == "power" or name == "set_led":
-        check(a[1] == 1 << board, "wrong-board-mask", hex(a[1]), **where)
+        check(a[1] == sum(1 << b for b in boards), "wrong-board-mask",
+              "%#x for boards %r" % (a[1], boards), **where)
     if ctxs or plan_ == "default":
         ctx.mark_nontrivial()
 
